@@ -870,10 +870,21 @@ func polyToComplexNoCRT(coeffs []uint64, values FloatSlice, scale rlwe.Scale, lo
 				}
 			}
 		} else {
+			// [X]/(X^N+1) to [X+X^-1]/(X^N+1)
+			// The imaginary parts are overwritten: they must not depend on what values held before.
 			slots := 1 << logSlots
 
-			for i := 1; i < slots; i++ {
-				values[i][1].Sub(values[i][1], values[slots-i][0])
+			for i := 0; i < slots; i++ {
+
+				if values[i][1] == nil {
+					values[i][1] = new(big.Float)
+				}
+
+				if i == 0 {
+					values[i][1].SetInt64(0)
+				} else {
+					values[i][1].Neg(values[slots-i][0])
+				}
 			}
 		}
 
@@ -980,9 +991,19 @@ func polyToComplexCRT(poly ring.Poly, bigintCoeffs []*big.Int, values FloatSlice
 			}
 		} else {
 			// [X]/(X^N+1) to [X+X^-1]/(X^N+1)
+			// The imaginary parts are overwritten: they must not depend on what values held before.
 			slots := 1 << logSlots
-			for i := 1; i < slots; i++ {
-				values[i][1].Sub(values[i][1], values[slots-i][0])
+			for i := 0; i < slots; i++ {
+
+				if values[i][1] == nil {
+					values[i][1] = new(big.Float)
+				}
+
+				if i == 0 {
+					values[i][1].SetInt64(0)
+				} else {
+					values[i][1].Neg(values[slots-i][0])
+				}
 			}
 		}
 
